@@ -25,6 +25,16 @@ sys.path.insert(0, str(HERE))
 # the implementation under test: /repo's working tree (VERIF_REPO lets a scratch copy be checked)
 REPO = Path(os.environ.get("VERIF_REPO", "/repo")).resolve()
 sys.path.insert(0, str(REPO))
+# where evidence/ and replays/ are written: /verif for runs against /repo itself; a private directory
+# for runs against a scratch copy (mutation rehearsals), so that the committed evidence always
+# describes /repo and parallel rehearsals do not collide.
+if os.environ.get("VERIF_OUT_DIR"):
+    OUT = Path(os.environ["VERIF_OUT_DIR"])
+elif REPO != Path("/repo"):
+    OUT = Path("/tmp") / ("verif-out-" + hashlib.sha1(str(REPO).encode()).hexdigest()[:10])
+else:
+    OUT = VERIF
+OUT.mkdir(parents=True, exist_ok=True)
 
 import leanbridge as lb  # noqa: E402
 
@@ -215,7 +225,7 @@ def _run(ctx: Ctx, args, t0: float) -> int:
         lines.append(f"KNOWN-FINDING: property={prop} key={key} {f.what}")
     replay_path = None
     if new_spec or broken:
-        rdir = VERIF / "replays"
+        rdir = OUT / "replays"
         rdir.mkdir(exist_ok=True)
         n = 0
         while (rdir / f"{prop}-{seed}-{n}.json").exists():
@@ -228,7 +238,7 @@ def _run(ctx: Ctx, args, t0: float) -> int:
             payload.update({"failing_input": f0.case, "what": f0.what, "key": f0.key,
                             "other_failing_inputs": [{"key": f.key, "what": f.what, "case": f.case} for f in new_spec[1:6]]})
         replay_path.write_text(json.dumps(payload, indent=1, default=str))
-        rel = os.path.relpath(replay_path, VERIF)
+        rel = os.path.relpath(replay_path, VERIF) if OUT == VERIF else str(replay_path)
         if new_spec:
             lines.append(f"VIOLATION property={prop} replay={rel}")
         else:
@@ -266,8 +276,8 @@ def _run(ctx: Ctx, args, t0: float) -> int:
         "wall_s": round(wall, 2),
         "violations": len(new_spec) + (1 if (broken and not new_spec) else 0),
     }
-    (VERIF / "evidence").mkdir(exist_ok=True)
-    (VERIF / "evidence" / f"{prop}.json").write_text(json.dumps(ev, indent=1, default=str))
+    (OUT / "evidence").mkdir(exist_ok=True)
+    (OUT / "evidence" / f"{prop}.json").write_text(json.dumps(ev, indent=1, default=str))
     for l in lines:
         print(l)
     print(f"{prop} tier={tier} seed={seed}: obligations={obligations} discharged={discharged} "
